@@ -5,11 +5,12 @@ then applies it to /repo temporarily, runs the quick checks named for it, revert
 /verif/seeded/<id>-<k>/{patch.diff,demo_test.go,meta.json}.  usage: verify_seeded.py [Cxx ...]"""
 import json, os, shutil, subprocess, sys, re, time
 
-RAW = "/verif/seeded/_raw"
+RAW = os.environ.get("SEED_RAW", "/verif/seeded/_raw")
+OFFSET = int(os.environ.get("SEED_OFFSET", "0"))
 WT = "/tmp/seedwt"
 ENV = dict(os.environ, GOFLAGS="-mod=mod", GOPROXY="off", GOSUMDB="off", GOTOOLCHAIN="local")
 # which checks to run besides the property's own (a change may surface through a neighbouring property too)
-EXTRA = {"C13": ["C12"], "C05": [], "C01": ["C10"], "C10": ["C01"]}
+EXTRA = {"C13": ["C12"], "C05": ["C20"] if OFFSET else [], "C01": ["C10"], "C10": ["C01"]}
 
 
 def sh(cmd, cwd=None, timeout=1500):
@@ -34,7 +35,7 @@ def main():
         print("REFUSING: /repo dirty"); sys.exit(4)
     head = sh("git -C /repo rev-parse --short HEAD")[1].strip()
     for pid, k, patch, ported, demo, notes in items(pids):
-        name = "%s-%d" % (pid, k)
+        name = "%s-%d" % (pid, k + OFFSET)
         meta = {"id": name, "property": pid, "repo_head": head, "patch_ported_to_current_tree": ported}
         sh("git -C /repo worktree remove --force %s" % WT); shutil.rmtree(WT, ignore_errors=True)
         sh("git -C /repo worktree add --detach %s HEAD" % WT)
